@@ -4,7 +4,7 @@ import re
 from . import mirlib as M
 from . import symex as S
 from . import casts
-from .common import LogModel, run_fn, ret_paths, variant_of, argval, argstr
+from .common import owners, LogModel, run_fn, ret_paths, variant_of, argval, argstr
 
 ADAPTERS = r"Iterator>::(skip|take|filter|step_by|rev|skip_while|take_while|chain|zip)\b"
 
@@ -121,7 +121,9 @@ def analyze(ctx, want):
     ctx.analysed_fn(sg)
     ex, paths = run_fn(sg, F, LogModel())
     early = 0
-    for p in paths:
+    out_loop = {}
+    # (iteration paths first: the return paths refer to what the loops did)
+    for p in sorted(paths, key=lambda q: 0 if q.end and q.end[0] == "cut" else 1):
         ln = [(c, o) for c, o in p.conds if c[0] == "binop" and "BTreeSet::len(&group)" in S.fstr(c)]
         ins = p.calls(r"BTreeSet::<.*StateID>::insert$")
         sig = p.calls(r"Minimizer::build_transitions_to_partition_group$")
@@ -132,18 +134,30 @@ def analyze(ctx, want):
             r = p.end[1]
             whole = S.mentions(r, lambda x: x == ("sym", "group"))
             ob("C03.b", "unsplit-return-only-for-singletons", bool(ok) and whole, "early return under %s returning %s" % (S.fstr(c), S.fstr(r)[:60]), sg.loc())
-        elif p.end[0] == "cut":
-            ok = len(sig) == 1 and len(ins) == 1
+        elif p.end[0] == "cut" and sig:
+            # one state of the group: its signature is computed (against the given partition) and the state is added to the
+            # class of that signature — entry(sig).or_default().insert(state), or get_mut(&sig) / insert(sig, {state}), ...
+            ok = len(sig) == 1
             if ok:
                 st = sig[0][3][0]
-                ent = p.calls(r"BTreeMap::<.*>::entry$")
-                ok = len(ent) == 1 and ent[0][3][1] == sig[0][4] and ins[0][3][1] == st and "item@" in S.fstr(st)
+                sres = sig[0][4]
+                keyed = [e for e in p.events if e[0] == "call" and re.search(r"BTreeMap::<.*>::(entry|get_mut|get|insert)(::<.*>)?$", e[2]) and len(e[3]) >= 2 and (ex.deref_val(p, e[3][1]) == sres if e[3][1][0] == "ref" else e[3][1] == sres)]
+                added = [e for e in ins if e[3][1] == st] + [e for e in p.events if e[0] == "call" and re.search(r"BTreeMap::<.*>::insert$", e[2]) and len(e[3]) == 3 and S.mentions(e[3][2], lambda x: x == st)]
+                ok = bool(keyed) and len(added) == 1 and "item@" in S.fstr(st)
                 ok_part = S.fstr(sig[0][3][1]).lstrip("&*") == "partition" and S.fstr(sig[0][3][2]).lstrip("&*") == "transitions"
                 ob("C03.b", "signature-computed-against-the-given-partition", ok_part, "signature(%s, %s, %s)" % tuple(S.fstr(a)[:30] for a in sig[0][3]), sg.loc())
             ob("C03.b", "each-state-goes-to-the-group-of-its-signature", ok, "per state: %d signature(s), %d insert(s)" % (len(sig), len(ins)), sg.loc())
+        elif p.end[0] == "cut":
+            # the walk over the signature classes that builds the result: every class is appended
+            pu = p.calls(r"Vec::<.*BTreeSet<.*StateID>>::push$")
+            if pu:
+                out_loop["push"] = S.mentions(argval(pu[0], 1), lambda x: x[0] == "sym" and str(x[1]).startswith("item@")) and len(pu) == 1
         elif p.end[0] == "return":
             r = p.end[1]
             ok = S.mentions(r, lambda x: x[0] == "app" and re.search(r"BTreeMap::<.*>::into_values$", x[1]) is not None)
+            if not ok and out_loop.get("push"):
+                from .common import loop_sources
+                ok = any(re.search(r"BTreeMap|transition_map_to_states", s_) for _, s_ in loop_sources(ex, paths)) and not [1 for bb_, t_ in sg.calls(ADAPTERS)]
             ob("C03.b", "output-groups-are-the-signature-classes", ok, "returns %s" % S.fstr(r)[:100], sg.loc())
     ob("C03.b", "early-return-present-or-absent-consistently", early <= 2, "%d early-return paths" % early, sg.loc())
     its = [M.call_name(t) for bb, t in sg.calls(ADAPTERS)]
@@ -392,7 +406,8 @@ def analyze(ctx, want):
     ok = len(order) == 2 and "merge_transitions" in calls[order[0]] and "renumber" in calls[order[1]]
     ob("C03.f", "members-merged-then-renumbered", ok, "calls: %s" % [M.short_name(calls[i]) for i in order], ut.loc())
     its = [c for c in calls if re.search(ADAPTERS, c)]
-    ob("C03.f", "all-merged-transitions-installed", not its and any(re.search(r"Vec::<.*>::push$", c) for c in calls), "adapters %s" % its, ut.loc())
+    calls_h = calls + [M.call_name(t) for f_ in F.fns.values() if S.is_unknown_helper(f_) and any(o.name == ut.name for o, _ in owners(F, f_)) for bb, t in f_.calls()]   # (+ helpers introduced later)
+    ob("C03.f", "all-merged-transitions-installed", not its and any(re.search(r"Vec::<.*>::push$", c) for c in calls_h), "adapters %s" % its, ut.loc())
     rn = F.fn(r"Minimizer::renumber_states_in_transitions$")
     ctx.analysed_fn(rn)
     # every state id stored in the transition list — the source of an entry and each of its targets — is overwritten with the
@@ -417,8 +432,17 @@ def analyze(ctx, want):
     ctx.analysed_fn(mt)
     ex, paths = run_fn(mt, F, LogModel())
     okm = False
+    form = None
     for p in paths:
         for c in p.calls(r"Minimizer::merge_transitions_of_state$"):
-            okm = "item@" in S.fstr(c[3][0]) and "first" in S.fstr(c[3][1])
-    sk = [M.call_name(t) for bb, t in mt.calls(r"Iterator>::skip$")]
-    ob("C03.f", "every-non-representative-member-is-merged-into-the-representative", okm and len(sk) == 1, "merge_transitions_of_state(member, first of group); skip calls: %d" % len(sk), mt.loc())
+            mem, rep = S.fstr(c[3][0]), S.fstr(c[3][1])
+            if "item@" in mem and re.search(r"BTreeSet::first\(|::first\(", rep):
+                form = "first+skip"         # representative = group.first(); members = group.iter().skip(1)
+                okm = True
+            elif "item@" in mem and re.search(r"Iterator>::next\(|item@bb\d+", rep) and rep != mem:
+                form = "next+rest"          # representative = the first element taken from the group's iterator; members = the rest of it
+                okm = True
+    sk = [t for bb, t in mt.calls(r"Iterator>::skip$")]
+    other = [M.short_name(M.call_name(t)) for bb, t in mt.calls(r"Iterator>::(rev|take|filter|filter_map|step_by|skip_while|take_while|chain|zip)\b")]
+    ok_skip = (len(sk) == 1) if form == "first+skip" else (len(sk) == 0)
+    ob("C03.f", "every-non-representative-member-is-merged-into-the-representative", okm and ok_skip and not other, "merge_transitions_of_state(member, representative) in the form %s; skip calls: %d; other adapters %s" % (form, len(sk), other), mt.loc())
